@@ -409,6 +409,36 @@ impl Prop for C14 {
       if observe_all(&*cl, exact) != ox {
         return Err("a clone answers an observer differently from its original".into());
       }
+      // a typed ReplaceSource and its clone lead separate lives: one more replacement on the clone leaves the
+      // original as it was (equal to a fresh build, same observations), and the two are no longer equal
+      if let Spec::Replace { inner, repls } = xs {
+        let mut orig = rspack_sources::ReplaceSource::new(build(inner));
+        for r in repls {
+          crate::build::apply_repl(&mut orig, r);
+        }
+        let before = observe_all(&orig, exact);
+        let h_before = hash_of(&orig);
+        let mut cl = orig.clone();
+        cl.insert(0, "<clone-only>", None);
+        let _ = cl.source();
+        let _ = hash_of(&cl);
+        let after = observe_all(&orig, exact);
+        if after != before || hash_of(&orig) != h_before {
+          return Err("a ReplaceSource answers differently after its clone received another replacement and was observed".into());
+        }
+        if orig == cl {
+          return Err("a ReplaceSource compares equal to its clone although the clone received another replacement".into());
+        }
+        if cl.source() == orig.source() || hash_of(&cl) == h_before {
+          return Err("the clone with one more (non-empty) insertion at 0 renders / hashes like its original".into());
+        }
+        let mut twin = orig.clone();
+        let _ = twin.source();
+        twin.insert(0, "<clone-only>", None);
+        if twin != cl || twin.source() != cl.source() || hash_of(&twin) != hash_of(&cl) {
+          return Err("two clones that received the same further replacement (one observed before, one not) differ".into());
+        }
+      }
       // deep clone through dyn_clone of the inner value
       let deep: Box<dyn Source> = dyn_clone_box(&*x);
       if *deep != *x || hash_of(&*deep) != hx0 || observe_all(&*deep, exact) != ox {
